@@ -1,7 +1,8 @@
 (* Property C13 — statements only.  Every theorem is closed by [exact] of a lemma from
    Proofs/Spec_proofs.v; the statements are pinned again in /verif/pins/C13.v. *)
 From SV Require Import Base.Prelude Model.Spec Proofs.Spec_proofs.
-From SV Require Model.Retry Model.Fiber Model.E2EAttempts Model.E2ESpec Proofs.E2EAttempts_proofs Proofs.E2ESpec_proofs.
+From SV Require Model.Retry Model.Fiber Model.E2EAttempts Model.E2ESpec Proofs.E2EAttempts_proofs Proofs.E2ESpec_proofs
+  Proofs.E2EResult_proofs.
 Open Scope nat_scope.
 
 (* can_be_ignored is exactly the "ignorable" class of the specification, for every variant *)
@@ -326,9 +327,22 @@ Theorem C13_e2e_final_definitive : forall e, E2ESpec.final_definitive e = true -
   forall s idem cl, snd (Retry.decide s (Retry.mk_ri e idem cl)) = Retry.DontRetry.
 Proof. exact E2ESpec_proofs.final_definitive_spec. Qed.
 
+(* The two result predicates the driver evaluates on rejected observations hold of EVERY accepted one
+   (gate open): no success / final definitive answer was logged more than the margin before every
+   answer that matches what the caller got ("first real answer wins"), and an ignorable error is what
+   the caller got only when every frame had been answered before the call returned and -- unless
+   connections were cut -- every node got a frame or at least 1 + max frames were sent ("the last
+   error once every started execution has finished and none may still be started"). *)
+Theorem C13_e2e_result_props : forall p idem spec cl0 nodes down cs assign frs ls t0 tret margin o co max,
+  E2ESpec.e2e_check13 p idem spec cl0 nodes down cs assign frs ls t0 tret margin o co = true ->
+  E2EAttempts.gate_open idem (option_map fst spec) = Some max ->
+  E2ESpec.prop_first_real margin o co frs = true /\
+  E2ESpec.prop_last_error max (List.length nodes) down tret o frs = true.
+Proof. exact E2EResult_proofs.e2e_check13_result_props. Qed.
+
 (* non-vacuity (instants in microseconds, interval 30 ms, margin 150 ms) *)
 Definition ex_fr (node arr : N) (a : E2EAttempts.answer) (d : N) :=
-  E2EAttempts.mkFrame node Retry.CQuorum arr a d.
+  E2EAttempts.mkFrame node Retry.CQuorum arr a d 0.
 Definition ex_c (node : N) (free : bool) := E2EAttempts.mkCert [node] [Fiber.OSuccess] free.
 Example C13_ex_e2e :
   (* idempotent, max 2: the first node is slow, the speculative fiber on node 0 answers at 30.2 ms *)
@@ -428,6 +442,7 @@ Example C13_ex_e2e_predicates :
   E2ESpec.final_definitive (Retry.EDbError Retry.DbInvalid) = true.
 Proof. vm_compute. repeat split; reflexivity. Qed.
 
+Print Assumptions C13_e2e_result_props.
 Print Assumptions C13_e2e_final_definitive.
 Print Assumptions C13_e2e_gate_model.
 Print Assumptions C13_e2e_gate.
